@@ -15,7 +15,7 @@ sys.unraisablehook = lambda *args: None   # silence GC-time clean-up of abandone
 
 import usim
 from usim import eternity, Scope, until, time, Flag, Lock, instant, Concurrent, TaskCancelled, \
-    TaskClosed, CancelTask, Queue, Channel, StreamClosed
+    TaskClosed, CancelTask, Queue, Channel, StreamClosed, Resources, Capacities, ResourcesUnavailable
 from usim._core.loop import Interrupt, Loop
 from usim._primitives.context import CancelScope, ScopeClosed
 
@@ -40,7 +40,8 @@ class LivelockAbort(BaseException):
 
 
 class World:
-    def __init__(self, prog, nroots, nflags=2, nlocks=2, max_turns=5000, nqueues=2, nchans=2):
+    def __init__(self, prog, nroots, nflags=2, nlocks=2, max_turns=5000, nqueues=2, nchans=2,
+                 nres=2, resinit=2, reskind='res'):
         # prog: list of op lists, index a-1
         self.prog = prog
         self.nroots = nroots
@@ -52,6 +53,10 @@ class World:
         self.stream_id = {id(q): ('q', i) for i, q in self.queues.items()}
         self.stream_id.update({id(c): ('ch', i) for i, c in self.chans.items()})
         self.iters = {}       # (activity, channel) -> async iterator of a consumer
+        mk = Resources if reskind == 'res' else Capacities
+        self.pools = {i + 1: mk(a=resinit) for i in range(nres)}   # pool id -> supply / open share
+        self.npool = nres
+        self.nres = nres
         self.nitem = 0
         self.tasks = {}       # k -> Task
         self.task_id = {}     # id(Task) -> k
@@ -90,6 +95,8 @@ class World:
             return ['tclosed', ctx_task]
         if isinstance(err, StreamClosed):
             return ['streamclosed'] + list(self.stream_id.get(id(err.stream), ('?', 0)))
+        if isinstance(err, ResourcesUnavailable):
+            return ['unavailable', getattr(err, '_verif_pool', 0)]
         if isinstance(err, StopAsyncIteration):
             return ['stopiter']
         if isinstance(err, ScopeClosed):
@@ -399,6 +406,68 @@ class Puppet:
                 pass
         self.emit('p', op='cstop', c=op['c'])
 
+    # ------------------------------------------------------------ resources
+    async def op_borrow(self, op):
+        await self.borrow_block(op, claim=False)
+
+    async def op_claim(self, op):
+        await self.borrow_block(op, claim=True)
+
+    async def borrow_block(self, op, claim):
+        w = self.w
+        p, amt = op['p'], op['amt']
+        pool = w.pools[p]
+        sh = w.npool + 1
+        w.npool = sh
+        name = 'claim' if claim else 'borrow'
+        block = pool.claim(a=amt) if claim else pool.borrow(a=amt)
+        self.emit('b', op=name, p=p, amt=amt, sh=sh)
+        phase = 'enter'
+        try:
+            async with block as share:
+                w.pools[sh] = share
+                phase = 'body'
+                self.emit('r', op=name, p=p)
+                implicit = await self.block()
+                phase = 'leave'
+                self.emit('b', op='leave', implicit=implicit, blk='res', id=p)
+            self.emit('r', op='leave', blk='res', id=p)
+        except ResourcesUnavailable as err:
+            err._verif_pool = p
+            self.emit('x', op=name, p=p, exc=w.enc(err))
+        except BaseException as err:
+            if phase == 'body':
+                self.emit('u', op='body', blk='res', id=p, exc=w.enc(err))
+            elif phase == 'leave':
+                self.emit('u', op='leave', blk='res', id=p, exc=w.enc(err))
+            else:
+                self.emit('u', op=name, p=p, exc=w.enc(err))
+            raise
+
+    async def rchange(self, op, kind):
+        pool = self.w.pools[op['p']]
+
+        async def f():
+            if kind == 'inc':
+                await pool.increase(a=op['amt'])
+            elif kind == 'dec':
+                await pool.decrease(a=op['amt'])
+            else:
+                await pool.set(a=op['amt'])
+        await self.leaf(op, f, {'p': op['p'], 'amt': op['amt']}, tag={'p': op['p']})
+
+    async def op_inc(self, op):
+        await self.rchange(op, 'inc')
+
+    async def op_dec(self, op):
+        await self.rchange(op, 'dec')
+
+    async def op_rset(self, op):
+        await self.rchange(op, 'rset')
+
+    async def op_levels(self, op):
+        self.emit('p', op='levels', p=op['p'], v=self.w.pools[op['p']].levels.a)
+
     # ------------------------------------------------------------ block ops
     async def op_enter(self, op):
         lock = self.w.locks[op['l']]
@@ -479,9 +548,11 @@ def install_livelock_guard():
     Loop._verif_guard = True
 
 
-def run_program(prog, nroots, nflags=2, nlocks=2, start=0, nqueues=2, nchans=2):
+def run_program(prog, nroots, nflags=2, nlocks=2, start=0, nqueues=2, nchans=2, nres=2, resinit=2, reskind='res'):
     """execute one program on the real usim; returns (events, outcome)"""
-    world = World(prog, nroots, nflags, nlocks, nqueues=nqueues, nchans=nchans)
+    world = World(prog, nroots, nflags, nlocks, nqueues=nqueues, nchans=nchans, nres=nres, resinit=resinit,
+                  reskind=reskind)
+    world.log.append({'e': 'init', 'a': 0, 'res': [world.pools[i + 1].levels.a for i in range(world.nres)]})
     roots = [Puppet(world, a + 1).main() for a in range(nroots)]
     outcome = {'k': 'ok'}
     try:
@@ -509,6 +580,7 @@ def run_program(prog, nroots, nflags=2, nlocks=2, start=0, nqueues=2, nchans=2):
     if outcome['k'] == 'ok':
         fin['free'] = probe_locks(world)
         fin['drain'] = drain_queues(world)
+    fin['levels'] = [world.pools[i + 1].levels.a for i in range(world.nres)]
     world.log.append(fin)
     return world.log, outcome
 
